@@ -177,6 +177,152 @@ def inside_rays(rng, mjm, mjd, n, scales=(1.0,)):
   return pnt.astype(np.float32), vec.astype(np.float32)
 
 
+# ------------------------------------------------------------------ structured height fields
+TERRAINS = ("profile_x", "profile_y", "stairs_x", "stairs_y", "ridge_x", "ridge_y", "diag", "const_rows", "bump", "flat", "roof_xy", "mixed")
+
+
+def terrain(rng, nrow, ncol, kind=None):
+  """piecewise-planar elevation grid (nrow, ncol), values >= 0, not all equal unless kind == 'flat' (then one
+  corner is raised by a hair so that MuJoCo's normalisation is defined): flat / ramp / plateau profiles along x
+  or y, stairs, ridges, diagonal ramps, rows of constant height, a single bump, a roof, and mixtures.  Adjacent
+  PLANAR cells of DIFFERENT slope are the point: this is what a greedy coplanar-cell merger must keep apart."""
+  kind = kind or str(rng.choice(TERRAINS))
+  r, c = np.meshgrid(np.arange(nrow), np.arange(ncol), indexing="ij")
+
+  def profile(n):
+    # random walk of segments: flat (0), up ramp (+1), down ramp (-1), steps of 1
+    z, out = int(rng.integers(0, 3)), []
+    seg = 0
+    while len(out) < n:
+      ln = int(rng.integers(1, 4))
+      for _ in range(ln):
+        out.append(z)
+        z = max(0, z + seg)
+      seg = int(rng.choice([0, 0, 1, -1, 2]))
+    return np.array(out[:n], dtype=np.float64)
+
+  if kind == "profile_x":
+    e = np.tile(profile(ncol), (nrow, 1))
+  elif kind == "profile_y":
+    e = np.tile(profile(nrow)[:, None], (1, ncol))
+  elif kind == "stairs_x":
+    e = np.tile(np.floor(np.arange(ncol) / max(1, int(rng.integers(1, 3)))), (nrow, 1))
+  elif kind == "stairs_y":
+    e = np.tile(np.floor(np.arange(nrow) / max(1, int(rng.integers(1, 3))))[:, None], (1, ncol))
+  elif kind == "ridge_x":
+    k = int(rng.integers(1, max(2, ncol - 1)))
+    e = np.tile(np.maximum(0, 3 - np.abs(np.arange(ncol) - k)).astype(float), (nrow, 1))
+  elif kind == "ridge_y":
+    k = int(rng.integers(1, max(2, nrow - 1)))
+    e = np.tile(np.maximum(0, 3 - np.abs(np.arange(nrow) - k)).astype(float)[:, None], (1, ncol))
+  elif kind == "diag":
+    e = np.clip((r + c).astype(float) - int(rng.integers(0, 3)), 0, int(rng.integers(2, 5)))
+  elif kind == "const_rows":
+    e = np.tile(rng.integers(0, 4, nrow).astype(float)[:, None], (1, ncol))
+  elif kind == "bump":
+    e = np.zeros((nrow, ncol))
+    e[int(rng.integers(0, nrow)), int(rng.integers(0, ncol))] = 2.0
+  elif kind == "roof_xy":
+    e = np.minimum(np.minimum(r, nrow - 1 - r), np.minimum(c, ncol - 1 - c)).astype(float)
+  elif kind == "mixed":
+    e = np.tile(profile(ncol), (nrow, 1)) + np.tile(profile(nrow)[:, None], (1, ncol))
+  else:
+    e = np.zeros((nrow, ncol))
+  if np.ptp(e) == 0:
+    e = e.copy()
+    e[0, 0] += 1e-3 if kind == "flat" else 1.0
+  return e, kind
+
+
+def terrain_scene(rng, nrow, ncol, kind=None, cameras="", extra_geoms=True):
+  """MJCF with one tilted / lifted structured height field (+ a few primitives on a free body)"""
+  e, kind = terrain(rng, nrow, ncol, kind)
+  sx, sy, sz, sb = rng.uniform(0.4, 1.0), rng.uniform(0.4, 1.0), rng.uniform(0.15, 0.5), 0.1
+  quat = np.array([1.0, 0, 0, 0]) + rng.normal(0, 0.12, 4)
+  hf = f'<hfield name="hf" nrow="{nrow}" ncol="{ncol}" size="{fmt([sx, sy, sz, sb])}" elevation="{fmt(e.reshape(-1))}"/>'
+  hpos = rng.normal(0, 0.1, 3)
+  geoms = f'<geom name="terrain" type="hfield" hfield="hf" pos="{fmt(hpos)}" quat="{fmt(quat)}"/>'
+  body = ""
+  if extra_geoms:
+    body = (f'<body name="b" pos="{fmt([rng.uniform(-sx, sx), rng.uniform(-sy, sy), sz + 0.5])}"><freejoint/>'
+            f'<geom type="sphere" size="0.08"/><geom type="box" size="0.06 0.05 0.04" pos="0.25 0 0"/></body>')  # fmt: skip
+  if callable(cameras):  # cameras placed relative to the field: cameras(pos, R, sx, sy, sz) -> MJCF
+    q = quat / np.linalg.norm(quat)
+    w, x, y, z = q
+    Rm = np.array([[1 - 2 * (y * y + z * z), 2 * (x * y - w * z), 2 * (x * z + w * y)], [2 * (x * y + w * z), 1 - 2 * (x * x + z * z), 2 * (y * z - w * x)],
+                   [2 * (x * z - w * y), 2 * (y * z + w * x), 1 - 2 * (x * x + y * y)]])  # fmt: skip
+    cameras = cameras(hpos, Rm, sx, sy, sz)
+  return f'<mujoco><visual><map znear="0.01"/></visual><asset>{hf}</asset><worldbody>{cameras}{geoms}{body}</worldbody></mujoco>', kind
+
+
+def rays_from_above(rng, mjm, mjd, gid, n_u, n_v, tilts=(0.0, 0.25, 0.5)):
+  """dense grid of rays onto the TOP surface of hfield geom `gid`: targets on an n_u x n_v grid over the footprint
+  (kept off the cell lines), directions: down the geom's -z and tilted by the given tangents in random azimuths;
+  origins above the highest elevation and inside the footprint, so the first hfield hit is on the top surface."""
+  hid = int(mjm.geom_dataid[gid])
+  sx, sy, sz, _ = mjm.hfield_size[hid]
+  R = mjd.geom_xmat[gid].reshape(3, 3)
+  p0 = mjd.geom_xpos[gid]
+  P, V = [], []
+  for iu in range(n_u):
+    for iv in range(n_v):
+      x = -sx + 2 * sx * (iu + 0.37) / n_u
+      y = -sy + 2 * sy * (iv + 0.41) / n_v
+      for t in tilts:
+        az = rng.uniform(0, 2 * np.pi)
+        d = np.array([t * np.cos(az), t * np.sin(az), -1.0])
+        d /= np.linalg.norm(d)
+        tgt = np.array([x, y, rng.uniform(0, sz)])
+        o = tgt - d * ((sz * 1.3 + 0.3 - tgt[2]) / -d[2])
+        if abs(o[0]) >= sx or abs(o[1]) >= sy:
+          continue
+        P.append(p0 + R @ o)
+        V.append(R @ d)
+  return np.array(P, dtype=np.float32), np.array(V, dtype=np.float32)
+
+
+def hfield_mesh_exact(points, indices, data, nr, nc, sx, sy, sz, tol=2e-5):
+  """Is the triangle mesh (points, indices) produced by bvh._optimize_hfield_mesh the SAME surface as the height
+  field's own triangulation (cell (r,c): triangles (r,c),(r,c+1),(r+1,c+1) and (r,c),(r+1,c+1),(r+1,c))?
+  Checks at every grid node and at the centroid of every original triangle that exactly the mesh height equals
+  the original height (so a merged quad lies on the original surface everywhere, not only at its corners) and
+  that the point is covered.  Returns a list of discrepancies (empty = exact)."""
+  pts = np.asarray(points, dtype=np.float64)
+  tri = np.asarray(indices).reshape(-1, 3)
+  dx, dy = 2 * sx / (nc - 1), 2 * sy / (nr - 1)
+  z = np.asarray(data, dtype=np.float64).reshape(nr, nc) * sz
+
+  def node(r, c):
+    return np.array([c * dx - sx, r * dy - sy, z[r, c]])
+
+  samples = []
+  for r in range(nr):
+    for c in range(nc):
+      samples.append(node(r, c))
+  for r in range(nr - 1):
+    for c in range(nc - 1):
+      samples.append((node(r, c) + node(r, c + 1) + node(r + 1, c + 1)) / 3)
+      samples.append((node(r, c) + node(r + 1, c + 1) + node(r + 1, c)) / 3)
+  A, B, C = pts[tri[:, 0]], pts[tri[:, 1]], pts[tri[:, 2]]
+  bad = []
+  for s in samples:
+    # barycentric coordinates of s.xy in every mesh triangle
+    v0, v1, v2 = (B - A)[:, :2], (C - A)[:, :2], (s[None, :2] - A[:, :2])
+    den = v0[:, 0] * v1[:, 1] - v1[:, 0] * v0[:, 1]
+    ok = np.abs(den) > 1e-14
+    u = np.where(ok, (v2[:, 0] * v1[:, 1] - v1[:, 0] * v2[:, 1]) / np.where(ok, den, 1), -1)
+    v = np.where(ok, (v0[:, 0] * v2[:, 1] - v2[:, 0] * v0[:, 1]) / np.where(ok, den, 1), -1)
+    inside = ok & (u >= -1e-6) & (v >= -1e-6) & (u + v <= 1 + 1e-6)  # float32 mesh points vs float64 samples
+    if not inside.any():
+      bad.append(dict(kind="uncovered", xy=s[:2].tolist()))
+      continue
+    h = A[inside, 2] + u[inside] * (B - A)[inside, 2] + v[inside] * (C - A)[inside, 2]
+    err = float(np.abs(h - s[2]).max())
+    if err > tol * (1 + abs(s[2])):
+      bad.append(dict(kind="height", xy=s[:2].tolist(), original=float(s[2]), mesh=h.tolist()))
+  return bad
+
+
 def random_cameras(rng, ncam, W, H, ortho=0.0):
   """MJCF cameras looking at the scene: fovy, intrinsic (sensorsize/focal/principal) or orthographic."""
   s = ""
